@@ -71,6 +71,11 @@ func c17Gen(c *Ctx) *c17Scenario {
 	if g.Bool() {
 		sc.ExecMs = []int{[]int{0, 10, 300}[g.Intn(3)], []int{0, 1500, 50}[g.Intn(3)], 0}
 	}
+	if g.Chance(1, 5) {
+		// one run in eight takes three hours: the worker of that task is busy while its next occurrences come due;
+		// the API must stay responsive (its calls have a budget of one virtual hour)
+		sc.ExecMs = []int{0, 10_800_000, 0, 0, []int{0, 10}[g.Intn(2)], 0, 0, 0}
+	}
 	if !c.FaultFree {
 		if g.Chance(1, 3) {
 			sc.ExecErr = g.Range(2, 5)
@@ -452,7 +457,7 @@ func init() {
 	Register(&Prop{
 		ID:  "C17",
 		Run: runC17,
-		Rule: "case = TreeScheduler with 1-4 workers on the virtual clock x 1-3 concurrent API clients issuing Schedule / re-Schedule (7 cron/@every forms, offsets -2..3s, lastScheduled up to 30s in the past) / Release over 1-4 task ids, sleeps and forward clock jumps (1.5s-2min) x executor latency/errors/panics and checkpointer latency/errors x one seeded schedule; then a fault-free quiet tail and Stop; " +
+		Rule: "case = TreeScheduler with 1-4 workers on the virtual clock x 1-3 concurrent API clients issuing Schedule / re-Schedule (7 cron/@every forms, offsets -2..3s, lastScheduled up to 30s in the past) / Release over 1-4 task ids, sleeps and forward clock jumps (1.5s-2min) x executor latency (0-1.5s, in a fifth of the cases one run in eight takes three hours)/errors/panics and checkpointer latency/errors x one seeded schedule; then a fault-free quiet tail and Stop; " +
 			"non-trivial = at least one Execute happened; distinct = distinct (scenario, interleaving signature) pairs",
 		Real:        []string{"task/backend/scheduler TreeScheduler (main loop, process, iterator, workers, Schedule, Release, Stop), Schedule/NewSchedule", "github.com/benbjohnson/clock (instrumented copy; real clock on the virtual time)", "influxdata/cron, google/btree (uninstrumented)"},
 		Stub:        []string{"recording Executor and SchedulableService (the property's own observation seam)"},
